@@ -35,8 +35,9 @@ def quality_trim_index(str qualities, int cutoff_front, int cutoff_back, int bas
     if qualities is None:
         raise HasNoQualities("Cannot do quality trimming when no qualities are available")
     cdef:
-        int s
-        int max_qual
+        # wide enough for the sum over a long read (or with a large cutoff)
+        long long s
+        long long max_qual
         int n = len(qualities)
         int stop = n
         int start = 0
@@ -51,7 +52,7 @@ def quality_trim_index(str qualities, int cutoff_front, int cutoff_back, int bas
     s = 0
     max_qual = 0
     for i in range(n):
-        s += cutoff_front - (qual[i] - base)
+        s += <long long>cutoff_front - (qual[i] - base)
         if s < 0:
             break
         if s > max_qual:
@@ -62,7 +63,7 @@ def quality_trim_index(str qualities, int cutoff_front, int cutoff_back, int bas
     max_qual = 0
     s = 0
     for i in reversed(range(n)):
-        s += cutoff_back - (qual[i] - base)
+        s += <long long>cutoff_back - (qual[i] - base)
         if s < 0:
             break
         if s > max_qual:
@@ -89,10 +90,11 @@ def nextseq_trim_index(sequence, int cutoff, int base=33):
     if qualities is None:
         raise HasNoQualities()
     cdef:
-        int s = 0
-        int max_qual = 0
+        long long s = 0
+        long long max_qual = 0
         int max_i
-        int i, q
+        int i
+        long long q
         char* qual
 
     if not PyUnicode_KIND(qualities) == PyUnicode_1BYTE_KIND:
@@ -105,7 +107,7 @@ def nextseq_trim_index(sequence, int cutoff, int base=33):
     for i in reversed(range(max_i)):
         q = qual[i] - base
         if bases[i] == 'G':
-            q = cutoff - 1
+            q = <long long>cutoff - 1
         s += cutoff - q
         if s < 0:
             break
